@@ -119,6 +119,9 @@ pub struct Script {
     /// delay (virtual) before the final status / end of stream
     pub end_gap_ms: u64,
     pub disable_compression: bool,
+    /// messages the handler's stream would still yield if it were polled again after its error
+    /// item (a stream is free to continue after an `Err`; nothing of it may reach the peer)
+    pub after_err: u8,
 }
 
 #[derive(Clone, Debug, Default)]
@@ -215,6 +218,12 @@ impl Handler {
         let st = (0usize, false);
         Box::pin(futures_util::stream::unfold((st, id, script, this, reqs.take()), |((i, done), id, script, this, mut reqs)| async move {
             if done {
+                let extra = i - script.msgs.len().min(i);
+                if script.end.is_some() && (extra as u8) < script.after_err {
+                    this.events.push("handler_msg_after_error", &id, format!("{}", extra));
+                    let m = Msg { data: vec![0xee; 3 + extra], seq: 9_000 + extra as u64, tag: "after-error".into() };
+                    return Some((Ok(m), ((i + 1, true), id, script, this, reqs)));
+                }
                 return None;
             }
             if i < script.msgs.len() {
@@ -800,6 +809,28 @@ where
                             repad_bin(&mut t);
                         }
                         this.queue.push_back(Frame::trailers(t));
+                        if this.probe_after_end {
+                            // a real peer stops reading at the trailers; the probe keeps polling to
+                            // see whether the body would produce anything after its final status
+                            for _ in 0..6 {
+                                match this.inner.as_mut().poll_frame(cx) {
+                                    Poll::Ready(Some(Ok(f))) => {
+                                        this.stats.after_end_frames.fetch_add(1, Ordering::Relaxed);
+                                        if let (Ok(t2), Some(tap)) = (f.into_trailers(), &this.trailers_tap) {
+                                            tap.lock().unwrap().push(t2);
+                                        }
+                                    }
+                                    Poll::Ready(Some(Err(_))) => {
+                                        this.stats.after_end_frames.fetch_add(1, Ordering::Relaxed);
+                                    }
+                                    Poll::Ready(None) => {
+                                        this.inner_done = true;
+                                        break;
+                                    }
+                                    Poll::Pending => {}
+                                }
+                            }
+                        }
                     }
                 }
             }
@@ -826,11 +857,45 @@ pub struct Loopback<S> {
     pub probe_after_end: bool,
     /// the "network peer" re-pads binary metadata in both directions (after the taps)
     pub pad_bin: bool,
+    /// the response body fails like a reset stream (CANCELLED) after this many DATA frames
+    pub reset_response_after: Option<usize>,
+}
+
+/// Response body that breaks off with a CANCELLED body error after `left` DATA frames - what the
+/// client's transport reports when the peer resets the stream before its trailers.
+pub struct ResetAfter {
+    inner: tonic::body::Body,
+    left: Option<usize>,
+}
+impl Body for ResetAfter {
+    type Data = Bytes;
+    type Error = Status;
+    fn poll_frame(mut self: Pin<&mut Self>, cx: &mut Context<'_>) -> Poll<Option<Result<Frame<Bytes>, Status>>> {
+        if self.left == Some(0) {
+            self.left = None;
+            self.inner = tonic::body::Body::default();
+            return Poll::Ready(Some(Err(Status::cancelled("verif: scripted stream reset"))));
+        }
+        let r = Pin::new(&mut self.inner).poll_frame(cx);
+        if let Poll::Ready(Some(Ok(f))) = &r {
+            if f.is_data() {
+                if let Some(n) = self.left.as_mut() {
+                    *n -= 1;
+                }
+            } else if self.left.is_some() {
+                // the trailers are what a reset pre-empts: break off instead of delivering them
+                self.left = None;
+                self.inner = tonic::body::Body::default();
+                return Poll::Ready(Some(Err(Status::cancelled("verif: scripted stream reset"))));
+            }
+        }
+        r
+    }
 }
 
 impl<S> Loopback<S> {
     pub fn new(svc: S, seed: u64, max_piece: usize) -> Self {
-        Loopback { svc, seed, counter: Arc::new(AtomicU64::new(0)), stats: Arc::new(RechunkStats::default()), max_piece, tap: Default::default(), resp_tap: Default::default(), trailers_tap: Default::default(), req_trailers_tap: Default::default(), req_body_tap: Default::default(), resp_body_tap: Default::default(), probe_after_end: false, pad_bin: false }
+        Loopback { svc, seed, counter: Arc::new(AtomicU64::new(0)), stats: Arc::new(RechunkStats::default()), max_piece, tap: Default::default(), resp_tap: Default::default(), trailers_tap: Default::default(), req_trailers_tap: Default::default(), req_body_tap: Default::default(), resp_body_tap: Default::default(), probe_after_end: false, pad_bin: false, reset_response_after: None }
     }
 }
 
@@ -879,6 +944,7 @@ where
         let pad = self.pad_bin;
         let probe = self.probe_after_end;
         let rbtap = self.resp_body_tap.clone();
+        let reset_after = self.reset_response_after;
         Box::pin(async move {
             let resp = fut.await?;
             let (mut parts, body) = resp.into_parts();
@@ -892,6 +958,7 @@ where
             if pad {
                 repad_bin(&mut parts.headers);
             }
+            let body = ResetAfter { inner: tonic::body::Body::new(body), left: reset_after };
             let mut rb = Rechunk::new(body, r2, stats, mp);
             rb.pad_bin = pad;
             rb.trailers_tap = Some(ttap);
